@@ -29,7 +29,7 @@ def gates(tier):
         "min_decided": {"G.closure_scc_based()": 20000 * k, "G.closure_reference()": 20000 * k, "G.solve_left(b)": 5000 * k,
                         "G.solve_right(b)": 5000 * k, "G.blocks": 3000 * k, "G.closure()": 20000 * k},
         "shapes": {c: 10 * k for c in ["self_loop", "multi_scc", "nontrivial_scc", "isolated_node", "sr:Q", "sr:Float",
-                                       "sr:Boolean", "sr:MaxTimes", "sr:Real", "cross_edges", "shared-object-sequences"]},
+                                       "sr:Boolean", "sr:MaxTimes", "sr:Real", "cross_edges", "shared-object-sequences"]} | {"scale:long-chain": k},
         "min_hashseeds": 2,
     }
 
@@ -37,7 +37,140 @@ def gates(tier):
 def gen_case(rng, spec):
     from rv.gen import automata as GA
 
+    if rng.random() < 0.004:
+        return gen_chain(rng)
     return {"G": GA.gen_graph(rng), "R": rng.choice(SEMIRINGS), "hseed": rng.randrange(1 << 30)}
+
+
+def gen_chain(rng):
+    """scale: a chain of 110-180 nodes (the state graph of an automaton for a 100+-token string) with self loops and
+    2-cycles: more than a hundred blocks, block order deeper than the default recursion budget / 8."""
+    N = rng.randint(110, 180)
+    loops = [i for i in range(N) if rng.random() < 0.3]
+    backs = [i for i in range(N - 1) if rng.random() < 0.2]
+    big = None
+    R = rng.choice(["Float", "Real", "Boolean"])
+    if R == "Boolean" and rng.random() < 0.4:
+        # one long cycle: an SCC of about 130 nodes (its closure is cubic in the library: Boolean weights only)
+        a = rng.randrange(0, N - 135) if N > 140 else 0
+        big = [a, min(N - 1, a + rng.randint(128, 134))]
+    return {"chain": {"N": N, "loops": loops, "backs": backs, "big_cycle": big, "names": rng.choice(["int", "str", "tuple", "pad"]),
+                      "order": rng.randrange(1 << 30), "b": sorted(rng.sample(range(N), 5))},
+            "R": R}
+
+
+def run_chain(case, ctx):
+    import random as _random
+
+    import numpy as np
+    from genlm.grammar.linear import WeightedGraph
+
+    from rv import codec, core, lib
+    from rv import semirings as SR
+    from rv.core import close2
+
+    c, R = case["chain"], case["R"]
+    N = c["N"]
+    Rcls = SR.BY_NAME[R]
+    edges = [(i, i + 1, 0.25) for i in range(N - 1)] + [(i, i, 0.125) for i in c["loops"]] + [(i + 1, i, 0.125) for i in c["backs"]]
+    if c["big_cycle"]:
+        edges.append((c["big_cycle"][1], c["big_cycle"][0], 0.0625))
+    names = {"int": lambda i: i, "str": lambda i: f"n{i}", "tuple": lambda i: ("q", i), "pad": lambda i: f"{i:03d}"}[c["names"]]
+    A = np.zeros((N, N))
+    for i, j, w in edges:
+        A[i, j] += w
+    boolean = R == "Boolean"
+    if boolean:
+        Rm = np.eye(N, dtype=bool) | (A > 0)
+        for _ in range(9):
+            Rm = Rm | ((Rm.astype(np.uint8) @ Rm.astype(np.uint8)) > 0)
+        C = Rm
+    else:
+        C = np.linalg.inv(np.eye(N) - A)
+    # components: maximal runs joined by back edges / the long cycle
+    parent = list(range(N))
+
+    def find(x):
+        while parent[x] != x:
+            parent[x] = parent[parent[x]]
+            x = parent[x]
+        return x
+
+    for i in c["backs"]:
+        parent[find(i + 1)] = find(i)
+    if c["big_cycle"]:
+        lo, hi = c["big_cycle"]
+        for i in range(lo, hi):
+            parent[find(i + 1)] = find(i)
+    comps = {}
+    for i in range(N):
+        comps.setdefault(find(i), set()).add(i)
+    comps = {frozenset(v) for v in comps.values()}
+    ctx.case(codec.fingerprint(case), True, ["scale:long-chain", f"sr:{R}", "nontrivial_scc", "multi_scc", "self_loop", "cross_edges"]
+             + (["scale:scc>125"] if c["big_cycle"] else []))
+    ctx.sample({"case": case, "blocks": len(comps)})
+    order = list(range(len(edges)))
+    _random.Random(c["order"]).shuffle(order)
+
+    def mkgraph():
+        G = WeightedGraph(Rcls)
+        for k in order:
+            i, j, w = edges[k]
+            G[names(i), names(j)] += lib.lib_weight(R, Fraction_of(w), k)
+        return G
+
+    def same(v, w):
+        if boolean:
+            return bool(lib.have_value(R, v)) == bool(w)
+        return close2(lib.have_value(R, v), float(w), 1e-8, 1e-12)
+
+    b = np.zeros(N, dtype=bool if boolean else float)
+    bl = Rcls.chart()
+    for i in c["b"]:
+        b[i] = True if boolean else 0.5
+        bl[names(i)] = lib.lib_weight(R, Fraction_of(0.5), 0) if not boolean else Rcls.one
+    if boolean:
+        left = (b.astype(np.uint8) @ C.astype(np.uint8)) > 0
+        right = (C.astype(np.uint8) @ b.astype(np.uint8)) > 0
+    else:
+        left, right = b @ C, C @ b
+    with core.default_recursion_budget(ctx):
+        ok, G = ctx.call(APIS[0], case, mkgraph)
+        if not ok:
+            return
+        ok, K = ctx.call(APIS[0], case, G.closure_scc_based)
+        if ok:
+            rr = _random.Random(c["order"] + 1)
+            pairs = [(rr.randrange(N), rr.randrange(N)) for _ in range(1500)] + [(i, min(N - 1, i + d)) for i in range(0, N, 3) for d in (0, 1, 7)]
+            for i, j in pairs:
+                key = (names(i), names(j))
+                v = K[key] if (hasattr(K, "__missing__") or not isinstance(K, dict)) else K.get(key, Rcls.zero)
+                ctx.check(APIS[0], same(v, C[i, j]), f"{APIS[0]}/entry/long-chain", dict(case, i=i, j=j), {"i": i, "j": j, "have": v, "want": float(C[i, j])})
+        for api, meth, want in ((APIS[2], "solve_left", left), (APIS[3], "solve_right", right)):
+            ok, sol = ctx.call(api, case, getattr(mkgraph(), meth), bl)
+            if ok:
+                for i in range(N):
+                    ctx.check(api, same(sol[names(i)], want[i]), f"{meth}/entry/long-chain", dict(case, i=i), {"i": i, "have": sol[names(i)], "want": float(want[i])})
+        ok, blocks = ctx.call(APIS[4], case, lambda: mkgraph().blocks)
+        if ok:
+            inv = {names(i): i for i in range(N)}
+            try:
+                bs = [frozenset(inv[x] for x in blk) for blk in blocks]
+            except (KeyError, TypeError) as e:
+                ctx.violated(APIS[4], "blocks/unknown-node", case, {"error": repr(e)})
+                return
+            flat = [x for blk in bs for x in blk]
+            ctx.check(APIS[4], sorted(flat) == list(range(N)), "blocks/not-a-partition", case, {"n_listed": len(flat), "n": N})
+            ctx.check(APIS[4], set(bs) == comps, "blocks/not-the-sccs", case, {"n_blocks": len(bs), "n_sccs": len(comps)})
+            pos = {x: k for k, blk in enumerate(bs) for x in blk}
+            bad = [(i, j) for i, j, w in edges if i in pos and j in pos and pos[i] > pos[j]]
+            ctx.check(APIS[4], not bad, "blocks/not-topologically-ordered", case, {"backward_edges": bad[:5]})
+
+
+def Fraction_of(x):
+    from fractions import Fraction as Fr
+
+    return Fr(x)
 
 
 def run_case(case, ctx):
@@ -48,6 +181,8 @@ def run_case(case, ctx):
     from rv.core import close2
     from rv.ref import cfgref, fsaref, linref
 
+    if case.get("chain"):
+        return run_chain(case, ctx)
     g, R = case["G"], case["R"]
     n, names = g["n"], g["names"]
     Rcls = SR.BY_NAME[R]
